@@ -1,7 +1,10 @@
 """C02 — schema-conforming trees pass validate() and are written as schema-valid XML.
 
-Tie: translators (nml.py, XSD; `tables_agree`, `content_order_agrees`, `facets_agree` kernel-checked per run) +
-correspondence (model validate walk vs real verdict; sequence matcher vs libxml2 on mutated child orders) + oracle.
+Tie: translators (nml.py, XSD; `tables_agree`, `content_order_agrees`, `attr_names_agree`, `facets_agree`,
+`validators_agree` kernel-checked per run) + correspondence (model validate walk vs real verdict; sequence / all /
+choice matcher vs libxml2 on mutated child orders; every boundary value of every simple type through the real
+validator, its model, libxml2 and the Lean value space) + oracle (libxml2 on every component written alone and on whole
+documents, well-formedness included; trees with a past).
 """
 import copy
 import json
@@ -10,28 +13,36 @@ import shutil
 import tempfile
 
 import bindgen
+import facetgen
 import fw
 from props import c03
 
-LEAN_PROPS = ["NmlVerif.Props.C02"]
+LEAN_PROPS = ["NmlVerif.Props.C02", "NmlVerif.Props.C02Facets", "NmlVerif.Props.C02Content"]
 LEVEL = "proof"
-RULE = ("schema-conforming trees drawn from the XSD value spaces (patterns via a regex sampler, enumerations, ranges, "
-        "cardinalities, one branch per choice), every one of the 199 types as root and as descendant (depth <= 3): real "
-        "validate(recursive=True) must accept and libxml2 must accept the component written on its own under a probe element of "
-        "its type; whole documents through NeuroMLWriter against the bundled XSD. Content-model stream: the root's children are "
-        "reordered / duplicated / deleted and libxml2's verdict is compared with the model's sequence matcher. non-trivial = tree "
-        "with >= 1 child element or >= 2 attributes; distinct = distinct written XML")
-TRUST = c03.TRUST + ["libxml2 is assumed to implement the XSD subset semantics formalised by `matchSeq` (sampled by the content-model stream)"]
+RULE = ("schema-conforming trees drawn from the XSD value spaces (patterns via a regex sampler using every XSD space character, "
+        "enumerations, ranges, cardinalities, one branch per choice; free xs:string values carry XML-special characters: both "
+        "quote kinds, <, >, &, line feeds, entity look-alikes, non-ASCII), every one of the 199 types as root and as descendant "
+        "(depth <= 3): real validate(recursive=True) must accept and the component written on its own under a probe element of its "
+        "type must be well-formed and accepted by libxml2; whole documents through NeuroMLWriter against the bundled XSD. Trees "
+        "with a past: the written text is READ back, one component is re-used in a differently named slot of the same type "
+        "(child.proximal = parent.distal), then validated and written again (component alone and whole document through "
+        "loaders/writers). Content-model stream: the root's children are reordered / duplicated / deleted and libxml2's verdict is "
+        "compared with the model's matcher (sequence, all, choice groups). Simple-type stream as in C03. non-trivial = tree with "
+        ">= 1 child element or >= 2 attributes; distinct = distinct written XML")
+TRUST = c03.TRUST + ["libxml2 is assumed to implement the XSD subset semantics formalised by `matchSeq` / `matchGroups` (sampled by the content-model stream)"]
 ASSUMPTIONS = [
-    "the content-model theorem c02_children_valid covers types whose whole content model is built from sequence/all groups of element particles; types with choice groups or wildcards are covered by the libxml2 oracle only",
+    "the content-model theorems cover types whose content model is built from sequence / all groups of element particles and element-level choices; wildcards (xs:any) are covered by the libxml2 oracle only",
     "known finding C02:GateKS:interleaved-group: a repeated choice over the (forwardTransition, reverseTransition) sequence group cannot be written member-grouped",
-    "numeric lexical spaces of xs:float/xs:double are what CPython float() accepts and repr/%.15f produce",
+    "numeric lexical spaces of xs:float/xs:double are what CPython float() accepts and repr/%.15f produce; non-finite floats are not generated",
+    "the unit-less Nml2Quantity with a value ending in a line feed: accepted by CPython's greedy engine, not covered by c02_facet_today (priority order of re not modelled), sampled",
 ]
 
 
 def regenerate(ctx):
     ctx.ir = bindgen.IR()
-    return list(ctx.ir.gaps)
+    gaps = list(ctx.ir.gaps)
+    info, vg = facetgen.validators(ctx, ctx.ir)
+    return gaps + list(vg)
 
 
 def gateks_two_pairs(mod):
@@ -44,7 +55,19 @@ def gateks_two_pairs(mod):
     return g
 
 
-def check_valid(ctx, ir, mod, cls, o, lines, pending, corpus_key=None):
+def corpus_special(mod):
+    """directed cases for the writer's escaping (seeded change C02-1 lives here): every kind of free string slot"""
+    vals = ["\"'", "'\"", "a\"b'c<&>", "\"\"''", "x\ny\"'", "'", "\"", "&amp;\"'&#10;", "]]>\"'", "<![CDATA[\"']]>"]
+    for i, v in enumerate(vals):
+        yield ("Property", mod.Property(tag=v, value="v%d" % i), "attr-both-quotes" if "'" in v and '"' in v else "attr-special")
+        yield ("Property", mod.Property(tag="t%d" % i, value=v), "attr-both-quotes" if "'" in v and '"' in v else "attr-special")
+    for v in vals:
+        yield ("NeuroMLDocument", mod.NeuroMLDocument(id="d", notes=v), "text-special")
+        yield ("IafCell", mod.IafCell(id="a", notes=v, leak_reversal="1mV", thresh="1mV", reset="1mV", C="1pF", leak_conductance="1nS",
+                                      properties=[mod.Property(tag=v, value=v)]), "text-and-attr-special")
+
+
+def check_valid(ctx, ir, mod, cls, o, lines, pending, corpus_key=None, history=None, bucket="valid-tree"):
     okx, msg, text = bindgen.xsd_verdict(o, cls)
     v, vmsg = c03.real_validate(o)
     from lxml import etree
@@ -54,26 +77,62 @@ def check_valid(ctx, ir, mod, cls, o, lines, pending, corpus_key=None):
     except Exception:
         root, nkids, nattr = None, 0, 0
     ctx.seen(text, nontrivial=(nkids >= 1 or nattr >= 2))
-    ctx.count("valid-tree")
-    case = {"root": cls, "xml": text[:2000]}
+    ctx.count(bucket)
+    case = {"root": cls, "xml": text[:6000]}
+    if history:
+        case["history"] = history
+    desc = None
+    try:
+        desc = bindgen.dump(ir, mod, o, cls)
+    except Exception as e:
+        ctx.disagree("validate-dump", case, repr(e), None)
+    if (not v or not okx) and desc is not None and not history:
+        case["desc"] = desc
     if not v:
         ctx.fail("C02:validate-rejects:" + cls, "validate(recursive=True) rejects a schema-conforming tree: " + vmsg[:200], case)
     if not okx:
-        key = corpus_key or ("C02:GateKS:interleaved-group" if "Transition" in msg and "GateKS" in text[:80] else "C02:schema-invalid-output:" + cls)
+        if corpus_key:
+            key = corpus_key
+        elif "Transition" in msg and "GateKS" in text[:80]:
+            key = "C02:GateKS:interleaved-group"
+        elif msg.startswith("not well-formed"):
+            key = "C02:not-well-formed:" + cls
+        elif history:
+            key = "C02:past-tree-invalid-output:" + history["moves"][0]["cls"]
+        else:
+            key = "C02:schema-invalid-output:" + cls
         ctx.fail(key, "libxml2 rejects the written XML: " + msg[:250], case)
     # correspondence: model walk
+    if desc is not None:
+        try:
+            bad = c03.simple_bad_pairs(ir, mod, o, cls)
+            lines.append(json.dumps({"op": "validate", "fuel": 14, "obj": bindgen.enc_obj(ir, desc), "bad": bad}))
+            pending.append(("validate", case, v))
+        except Exception as e:
+            ctx.disagree("validate-dump", case, repr(e), None)
+    return root, text, (okx and v)
+
+
+def past_tree(ctx, ir, mod, cls, text, slot_tab, lines, pending, rng):
+    """READ the written component back, re-use one of its parts in a differently named slot of the same type, then
+    validate and write again"""
+    from lxml import etree
     try:
-        desc = bindgen.dump(ir, mod, o, cls)
-        bad = c03.simple_bad_pairs(ir, mod, o, cls)
-        lines.append(json.dumps({"op": "validate", "fuel": 12, "obj": bindgen.enc_obj(ir, desc), "bad": bad}))
-        pending.append(("validate", case, v))
+        o2 = getattr(mod, cls).factory()
+        o2.build(etree.fromstring(text.encode("utf-8")))
     except Exception as e:
-        ctx.disagree("validate-dump", case, repr(e), None)
-    return root, text
+        ctx.disagree("past-tree-read", {"root": cls, "xml": text[:3000]}, repr(e)[:200], None)
+        return
+    mv = facetgen.rearrange(ir, rng, o2, cls, slot_tab)
+    if mv is None:
+        ctx.count("past-tree:no-move-possible")
+        return
+    ctx.count("past-tree:%s" % mv["mode"])
+    check_valid(ctx, ir, mod, cls, o2, lines, pending, history={"xml_before": text[:8000], "moves": [mv]}, bucket="past-tree")
 
 
 def content_stream(ctx, ir, cls, root, lines, pending, rng):
-    """mutate the order / multiplicity of the root's children; libxml2 vs sequence matcher"""
+    """mutate the order / multiplicity of the root's children; libxml2 vs the content-model matchers"""
     from lxml import etree
     if root is None:
         return
@@ -125,8 +184,13 @@ def flush(ctx, lines, pending):
         if kind == "validate":
             ctx.corr_evals += 1
             if r.get("all") != real:
-                ctx.disagree("validate-walk", case, real, r)
+                ctx.disagree("validate-walk", {k: v for k, v in case.items() if k != "desc"}, real, r)
         else:
+            if r.get("groupShaped"):
+                ctx.corr_evals += 1
+                ctx.count("content-model:groups-exact")
+                if r.get("groupsOk") != real:
+                    ctx.disagree("content-model-groups", case, real, r)
             if r.get("seqShaped"):
                 ctx.corr_evals += 1
                 if r.get("ok") != real:
@@ -135,17 +199,118 @@ def flush(ctx, lines, pending):
                 ctx.corr_evals += 1          # `all` groups: the sequence matcher is a sufficient condition only
                 if r.get("ok") and not real:
                     ctx.disagree("content-model-all", case, real, r)
+            elif not r.get("groupShaped"):
+                ctx.count("content:wildcard-or-nested-group (oracle only)")
+
+
+def doc_stream(ctx, ir, mod, gen, slot_tab):
+    """whole documents through the writer, validated against the bundled XSD as shipped; then read back through the
+    loader, one component re-used elsewhere, written again"""
+    import neuroml.loaders as L
+    import neuroml.writers as W
+    from lxml import etree
+    tmp = tempfile.mkdtemp(prefix="verif_c02_")
+    try:
+        path, ver = bindgen.emit_xsd.xsd_extract.current_xsd(fw.REPO)
+        sch = etree.XMLSchema(etree.parse(path))
+
+        def write_and_check(d, p, bucket, history=None):
+            case = {"root": "NeuroMLDocument", "stream": "doc"}
+            if history:
+                case["history"] = history
             else:
-                ctx.count("content:choice-or-wildcard (oracle only)")
+                try:
+                    case["desc"] = bindgen.dump(ir, mod, d, "NeuroMLDocument")
+                except Exception:
+                    pass
+            try:
+                W.NeuroMLWriter.write(d, p)
+            except Exception as e:
+                ctx.fail("C02:doc-write-raised", "NeuroMLWriter.write raised %r" % (e,), case)
+                return False
+            text = open(p).read()
+            case["xml"] = text[:6000]
+            ctx.seen(text)
+            ctx.count(bucket)
+            try:
+                doc = etree.parse(p)
+            except Exception as e:
+                ctx.fail("C02:doc-not-well-formed", "the written document is not well-formed: %s" % str(e)[:200], case)
+                return False
+            if not sch.validate(doc):
+                key = "C02:past-tree-invalid-document:" + history["moves"][0]["cls"] if history else "C02:schema-invalid-document"
+                ctx.fail(key, "written document rejected: %s" % str(sch.error_log.last_error)[:250], case)
+                return False
+            v, vm = c03.real_validate(d)
+            if not v:
+                ctx.fail("C02:validate-rejects:NeuroMLDocument", "validate(recursive=True) rejects a conforming document: " + vm[:200], case)
+            loc = doc.getroot().get("{http://www.w3.org/2001/XMLSchema-instance}schemaLocation") or ""
+            if ver and ver not in loc:
+                ctx.fail("C02:schemaLocation-version", "writer names %r, bundled schema is %s" % (loc, ver), {"loc": loc})
+            return True
+
+        for i in range(ctx.n(12, 80) * ctx.search_mult):
+            try:
+                d = gen.obj("NeuroMLDocument")
+            except Exception:
+                ctx.count("gen-failed")
+                continue
+            d.includes = []
+            p = os.path.join(tmp, "d%d.nml" % i)
+            if not write_and_check(d, p, "doc-cases"):
+                continue
+            # the document, with a past
+            try:
+                d2 = L.read_neuroml2_file(p, include_includes=False, verbose=False)
+            except BaseException as e:
+                ctx.fail("C02:doc-not-readable", "the loader cannot read back the written document: %r" % (e,), {"xml": open(p).read()[:6000]})
+                continue
+            for j in range(3):
+                mv = facetgen.rearrange(ir, ctx.rng, d2, "NeuroMLDocument", slot_tab)
+                if mv is None:
+                    break
+                write_and_check(d2, os.path.join(tmp, "d%d_%d.nml" % (i, j)), "doc-past-tree",
+                                history={"xml_before_file": open(p).read()[:20000], "moves": [mv]})
+                try:       # each move starts from a freshly read tree (one move per case keeps the replay small)
+                    d2 = L.read_neuroml2_file(p, include_includes=False, verbose=False)
+                except BaseException:
+                    break
+    finally:
+        shutil.rmtree(tmp, ignore_errors=True)
+
+
+def morphology_with_past(mod):
+    """CORPUS (seeded change C02-2): a morphology READ from XML whose child segment then takes its parent's distal point
+    as its proximal point (what Cell.get_actual_proximal / the unbranched-section code does)"""
+    from lxml import etree
+    text = ('<probe_Morphology xmlns="http://www.neuroml.org/schema/neuroml2" id="m">'
+            '<segment id="0" name="soma"><proximal x="0" y="0" z="0" diameter="10"/><distal x="10" y="0" z="0" diameter="10"/></segment>'
+            '<segment id="1" name="d"><parent segment="0"/><distal x="20" y="0" z="0" diameter="2"/></segment>'
+            '</probe_Morphology>')
+    m = mod.Morphology.factory()
+    m.build(etree.fromstring(text))
+    mv = {"src": [["segments", 0], ["distal", None]], "dst": [["segments", 1]], "member": "proximal", "mode": "set",
+          "from_tag": "distal", "to_tag": "proximal", "cls": "Point3DWithDiam"}
+    facetgen.apply_move(m, mv)
+    return m, {"xml_before": text, "moves": [mv]}
 
 
 def run(ctx):
     ir = getattr(ctx, "ir", None) or bindgen.IR()
     import neuroml.nml.nml as mod
-    gen = bindgen.ValidGen(ir, ctx.rng, max_depth=3)
+    gen = facetgen.ValidGen2(ir, ctx.rng, max_depth=3)
+    slot_tab = facetgen.slot_table(gen)
     lines, pending = [], []
-    # corpus: the known finding
+    # corpus: the known finding, the escaping cases, a tree with a past
     check_valid(ctx, ir, mod, "GateKS", gateks_two_pairs(mod), lines, pending, corpus_key="C02:GateKS:interleaved-group")
+    for cls, o, bucket in corpus_special(mod):
+        check_valid(ctx, ir, mod, cls, o, lines, pending, bucket="corpus:" + bucket)
+    # known finding: non-finite members of the xs:double value space are written in Python's spelling
+    for v in (float("inf"), float("-inf"), float("nan")):
+        check_valid(ctx, ir, mod, "Point3DWithDiam", mod.Point3DWithDiam(x=v, y=0.0, z=0.0, diameter=1.0), lines, pending,
+                    corpus_key="C02:nonfinite-float-lexical", bucket="corpus:nonfinite")
+    m, hist = morphology_with_past(mod)
+    check_valid(ctx, ir, mod, "Morphology", m, lines, pending, history=hist, bucket="corpus:past-tree")
     per = ctx.n(2, 20) * ctx.search_mult
     classes = [c["name"] for c in ir.table["classes"]]
     if getattr(ctx, "broken", None):
@@ -161,7 +326,7 @@ def run(ctx):
                     o = gen.obj(cls)
                 except Exception:
                     continue
-                root, _ = check_valid(ctx, ir, mod, cls, o, lines, pending)
+                check_valid(ctx, ir, mod, cls, o, lines, pending)
     for cls in classes:
         for i in range(per):
             try:
@@ -169,49 +334,72 @@ def run(ctx):
             except Exception:
                 ctx.count("gen-failed")
                 continue
-            root, text = check_valid(ctx, ir, mod, cls, o, lines, pending)
+            root, text, good = check_valid(ctx, ir, mod, cls, o, lines, pending)
             if i == 0:
                 content_stream(ctx, ir, cls, root, lines, pending, ctx.rng)
+            if good:
+                past_tree(ctx, ir, mod, cls, text, slot_tab, lines, pending, ctx.rng)
         if len(lines) > 3000:
             flush(ctx, lines, pending)
             lines, pending = [], []
     flush(ctx, lines, pending)
-    # whole documents through the writer, validated against the bundled XSD as shipped
-    import neuroml.writers as W
-    from lxml import etree
-    tmp = tempfile.mkdtemp(prefix="verif_c02_")
-    try:
-        path, ver = bindgen.emit_xsd.xsd_extract.current_xsd(fw.REPO)
-        sch = etree.XMLSchema(etree.parse(path))
-        for i in range(ctx.n(10, 80)):
-            d = gen.obj("NeuroMLDocument")
-            p = os.path.join(tmp, "d%d.nml" % i)
-            try:
-                W.NeuroMLWriter.write(d, p)
-                doc = etree.parse(p)
-            except Exception as e:
-                ctx.fail("C02:doc-write-raised", repr(e), {"i": i})
-                continue
-            ctx.seen(open(p).read())
-            ctx.count("doc-cases")
-            if not sch.validate(doc):
-                ctx.fail("C02:schema-invalid-document", "written document rejected: %s" % str(sch.error_log.last_error)[:250],
-                         {"root": "NeuroMLDocument", "xml": open(p).read()[:2000]})
-            loc = doc.getroot().get("{http://www.w3.org/2001/XMLSchema-instance}schemaLocation") or ""
-            if ver and ver not in loc:
-                ctx.fail("C02:schemaLocation-version", "writer names %r, bundled schema is %s" % (loc, ver), {"loc": loc})
-    finally:
-        shutil.rmtree(tmp, ignore_errors=True)
+    info, _ = facetgen.validators(ctx, ir)
+    if info is not None:
+        facetgen.simple_stream(ctx, ir, mod, info, "C02", n_valid=ctx.n(3, 8))
+    doc_stream(ctx, ir, mod, gen, slot_tab)
     ctx.sample({"root": "GateKS", "note": "two forward/reverse transition pairs (known finding)"})
-    ctx.extra["table_obligations"] = ["tables_agree", "facets_agree", "content_order_agrees"]
+    ctx.sample({"root": "Property", "attrs": {"tag": "a\"b'c<&>", "value": "v"}, "note": "both quote kinds in one attribute value"})
+    ctx.sample({"root": "Morphology", "history": "read, then segments[1].proximal = segments[0].distal, then written"})
+    ctx.extra["table_obligations"] = ["tables_agree", "facets_agree", "content_order_agrees", "attr_names_agree", "validators_agree",
+                                      "group_order_agrees"]
 
 
 def replay(ctx, payload):
     from lxml import etree
     import neuroml.nml.nml as mod
     case = payload["case"]
-    root = etree.fromstring(case["xml"].encode("utf-8"))
-    o = getattr(mod, case["root"]).factory().build(root)
+    if case.get("stream") == "simple":
+        return facetgen.replay_simple(mod, case, "C02")
+    ir = bindgen.IR()
+    hist = case.get("history")
+    if case.get("stream") == "doc":
+        import neuroml.loaders as L
+        import neuroml.writers as W
+        tmp = tempfile.mkdtemp(prefix="verif_c02_")
+        try:
+            if hist:
+                p0 = os.path.join(tmp, "before.nml")
+                with open(p0, "w") as fh:
+                    fh.write(hist["xml_before_file"])
+                d = L.read_neuroml2_file(p0, include_includes=False, verbose=False)
+                for mv in hist["moves"]:
+                    facetgen.apply_move(d, mv)
+            else:
+                d = facetgen.obj_from_desc(ir, mod, case["desc"])
+            p = os.path.join(tmp, "replay.nml")
+            W.NeuroMLWriter.write(d, p)
+            path, _ = bindgen.emit_xsd.xsd_extract.current_xsd(fw.REPO)
+            sch = etree.XMLSchema(etree.parse(path))
+            try:
+                okx = bool(sch.validate(etree.parse(p)))
+                msg = "" if okx else str(sch.error_log.last_error)[:300]
+            except Exception as e:
+                okx, msg = False, "not well-formed: %s" % str(e)[:200]
+            v, vm = c03.real_validate(d)
+            return {"fails": not (okx and v), "libxml2_valid": okx, "libxml2": msg, "validate_accepts": v}
+        finally:
+            shutil.rmtree(tmp, ignore_errors=True)
+    if hist:
+        o = getattr(mod, case["root"]).factory()
+        o.build(etree.fromstring(hist["xml_before"].encode("utf-8")))
+        for mv in hist["moves"]:
+            facetgen.apply_move(o, mv)
+    elif case.get("desc"):
+        o = facetgen.obj_from_desc(ir, mod, case["desc"])
+    else:
+        root = etree.fromstring(case["xml"].encode("utf-8"))
+        o = getattr(mod, case["root"]).factory()
+        o.build(root)
     v, vm = c03.real_validate(o)
-    okx, msg, _ = bindgen.xsd_verdict(o, case["root"])
-    return {"fails": not (okx and v), "libxml2_valid": okx, "libxml2": msg, "validate_accepts": v}
+    okx, msg, text = bindgen.xsd_verdict(o, case["root"])
+    return {"fails": not (okx and v), "libxml2_valid": okx, "libxml2": msg, "validate_accepts": v, "written": text[:600]}
